@@ -277,7 +277,7 @@ def run(ctx, syn_forms=None, volume=1.0):
     parsers = {"x86": ParserX86ATT(), "aarch64": ParserAArch64()}
     forms_enc = check_databases(ctx, sems)
 
-    n = int((220 if ctx.tier == "quick" else 4000) * volume * (3 if any(k == "proof" or k == "translator" for k, _, _ in ctx.broken) else 1))
+    n = int((400 if ctx.tier == "quick" else 4000) * volume * (3 if any(k == "proof" or k == "translator" for k, _, _ in ctx.broken) else 1))
     kernels = []                                    # (isa, lines, source)
     for t in range(n):
         isa = "x86" if t % 2 == 0 else "aarch64"
